@@ -325,6 +325,10 @@ Definition check_entry (vertex_result : bool) (maxdeg : nat) (unl : obs) (e : en
     let lastseg := List.last subs [] in
     let lastp := List.last (ob_trace o) (0, 0) in
     let fires_at p := TM.fires t ck (fst p) (snd p) in
+    (* a search (or a driver on top of sub-searches) that returns must return the unlimited result: every tree, every
+       route edge by edge, iterations, all costs and states *)
+    if String.eqb (ob_status o) "Ok" && negb (same_result o unl) then Some "returned a result that differs from the unlimited result"
+    else
     match (fix all (l : list (list (nat * nat))) : option string :=
              match l with
              | [] => None
